@@ -166,6 +166,21 @@ func runC10(r *Run, replay *Case) {
 		}
 		r.Add(c)
 	}
+	// the pure Lean model against the LONG-USED engine: after everything above, each program still renders what the model — a function of
+	// (files, data) with no memory — says
+	for _, p := range progs {
+		if p.page == "layouted.vuego" {
+			continue
+		}
+		out, e, _, _ := c10Render(long, p, true)
+		pc := pageCase("history:"+p.name, c10Files, nil, p.page, p.data(), "kind:model-vs-long-used-engine")
+		if e {
+			pc.Impl = map[string]any{"err": true}
+		} else {
+			pc.Impl = map[string]any{"out": out}
+		}
+		r.Add(pc)
+	}
 	// ordered pairs
 	for _, p1 := range progs {
 		for _, p2 := range progs {
